@@ -58,7 +58,7 @@ def fromBuffer (data : Bits) (length : Option Int) : Except Err Store :=
     if l < 0 then .error .value else
     if l.toNat > data.length then .error .value else
     if l.toNat < data.length then .ok ⟨data.take l.toNat, none⟩
-    else .ok ⟨data, some l.toNat⟩
+    else .ok ⟨data, none⟩                     -- the store holds exactly the wanted bits: modified_length is reset
 
 /-- `Bits._setfile(filename, length, offset)` (bits.py:544) for `offset ≥ 0`. -/
 def fromFile (data : Bits) (offset length : Option Int) : Except Err Store :=
@@ -136,7 +136,8 @@ def handle (args : List String) : String :=
         match r with
         | .error e => "err " ++ e.toStr
         | .ok s =>
-          let b := toBitsForBytes s
+          let b0 := toBitsForBytes s
+          let b := b0 ++ List.replicate ((8 - b0.length % 8) % 8) false      -- tobytes() zero-pads to a whole byte
           s!"ok {bitsToWire (logical s)} {C08.len s} {count1 s} {bitsToWire b} {if eqStore s (ofBits (logical s)) then "True" else "False"}"
     | _, _, _ => "bad-op"
   | _ => "bad-op"
